@@ -32,7 +32,7 @@ def trial_count(sub, desc):
         with quiet():
             built = build(desc)
             T = built.block.trials_per_sample()
-    except (ValueError, RuntimeError):
+    except Exception:
         sub.case(key, nontrivial=False)
         return 'rejected'
     sub.case(key, nontrivial=True)
